@@ -66,6 +66,7 @@ def run(R):
     common.load_ir(R)
     names = common.names_for(R, 'C18')
     obs = check.verify_functions(R, names)
+    obs += common.avr_pass(R, names)
     obs += common.lemma_obligations(R, 'C18')
     # Python side (pyvc): obligations over mathematical integers
     pyobs, tests, npaths = ruleday.python_obligations()
